@@ -9,7 +9,7 @@
     a parameter (ties of an unstable sort, DESIGN 4.3): every theorem holds for every duplicate-free
     order, and [C04_valid_order_covers] says a valid order numbers every literal of the automaton. *)
 From CG Require Import Base.Prelude Model.Ast Model.Dfa Model.Tpl Model.Quote Model.Tables Model.EmitBash
-     Spec.ShellDQ Spec.ScriptRead Proofs.TablesSound Proofs.BashCodec.
+     Spec.ShellDQ Spec.ScriptRead Proofs.TablesSound Proofs.BashCodec Proofs.BashScript.
 From CGgen Require Import TplBash.
 Open Scope N_scope.
 Open Scope list_scope.
@@ -412,17 +412,56 @@ Check C04_embed_bash_subword_levels :
     = level_stmts "subword_transitions_level_" levels ++ scan k Bash cmd rest.
 Print Assumptions C04_embed_bash_subword_levels.
 
-(** The whole-script statement (reader applied to [EmitBash.script ...] = the data of [all_tables ...],
-    including function headers, command bodies, wrappers, start state and registration) is NOT proved; it
-    would be:
-      Definition C04_embed_bash_statement : Prop :=
-        forall command sig c om os groups s valid,
-          script_of_dfa command sig c om os groups = Ok (s, valid) -> valid = true ->
-          decode (read_stmts Bash s) = Some (embedded data of all_tables Bash c om os).
-    What is proved is the round trip of every table section and table statement (above); the rest of
-    the script (fixed skeleton + headers) is covered on every run by the byte-for-byte tie of
-    [EmitBash.script] against Rust's script and by the direct judgement of the extracted reader on
-    Rust's script. *)
+Definition ex_sub0 : dfa :=
+  mkdfa 0 [(0, [(0, 1)]); (1, [(1, 2); (2, 2)])] [2] [ILit "--k=" None 0; ILit "x" (Some "dx") 0; ILit "y" None 1].
+Definition ex_cdfa0 : cdfa :=
+  mkcdfa (mkdfa 0 [(0, [(0, 1); (1, 1); (2, 2)]); (2, [(3, 1)])] [1]
+                [ILit "a$" (Some "d") 0; ISub 0 0; ICmd "echo c" 1; IStar]) [ex_sub0].
+Definition ex_om0 : list (string * string) := [("a$", "d")].
+Definition ex_os0 : list (N * list (string * string)) := [(0, [("--k=", ""); ("y", ""); ("x", "dx")])].
+
+(** bash, THE WHOLE SCRIPT: reading the emitted script with the specification-side reader gives exactly
+    the statements [script_stmts] -- for every external command its function with the body verbatim;
+    for every within-word automaton its wrapper (accepting states, literal list, and either its own
+    tables or the call of the shape function that holds them), the shape functions with their tables;
+    the completion function with its literal list, match tables, within-word transitions, start state,
+    candidate tables per level, max_fallback_level; and the registration of [_<cmd>] for [<cmd>] --
+    and nothing else but the five fixed [local] statements of the skeleton.  Hypotheses: the command
+    name is made of name characters, the signature line has no newline, no line of a command body is a
+    lone closing brace.  The skeleton enters only through the templates regenerated from bash.rs: every
+    line of it is either computed to be skipped / read as one of the fixed statements, or skipped
+    because it is indented deeper than any data statement. *)
+Theorem C04_embed_bash :
+  forall (command sig : string) (start : N) (nd : needs) (a : alltables) (groups : list (list N)) (s : string),
+    name_ok command -> no_nl sig = true ->
+    Forall (fun c : string => body_ok (cmd_body c)) (a_commands a) ->
+    script command sig start nd a groups = Ok s ->
+    exists sts : list stmt,
+      script_stmts command start nd a groups = Ok sts /\ read_stmts Bash command s = sts.
+Proof. exact bash_script_read. Qed.
+Check C04_embed_bash :
+  forall (command sig : string) (start : N) (nd : needs) (a : alltables) (groups : list (list N)) (s : string),
+    name_ok command -> no_nl sig = true ->
+    Forall (fun c : string => body_ok (cmd_body c)) (a_commands a) ->
+    script command sig start nd a groups = Ok s ->
+    exists sts : list stmt,
+      script_stmts command start nd a groups = Ok sts /\ read_stmts Bash command s = sts.
+Print Assumptions C04_embed_bash.
+
+(** the hypotheses are inhabited and the statement computes: the script of the example automaton below *)
+Example ex_C04_embed_bash :
+  match script_of_dfa "cmd" "cmd completion script v0" ex_cdfa0 ex_om0 ex_os0 [[0]] with
+  | Ok (s, valid) =>
+      valid = true
+      /\ match all_tables Bash ex_cdfa0 ex_om0 ex_os0 with
+         | Ok (nd, a) => script_stmts "cmd" 0 nd a [[0]] = Ok (read_stmts Bash "cmd" s)
+                         /\ forallb (fun c => forallb (fun l => negb (String.eqb l "}")) (split_nl (cmd_body c))) (a_commands a) = true
+         | _ => False
+         end
+  | _ => False
+  end.
+Proof. vm_compute. repeat split. Qed.
+Print Assumptions ex_C04_embed_bash.
 
 (** Non-vacuity: the tables of a small automaton with a within-word automaton, a command and two
     fallback levels are computed ([all_tables] = Ok), the automaton is well-formed, the literal
